@@ -1,9 +1,1223 @@
-/-!
-# M-RX — the ECMAScript regular-expression validator (`src/js_regex/validator.rs`, `reader.rs`) and the mode logic of
-`no-invalid-regexp` (`src/rules/no_invalid_regexp.rs:94-109`)
+import DL.Gen.UnicodeTables
 
-(stub: filled in by the transcription; see DESIGN.md §4 M-RX)
+/-!
+# M-RX — the ECMAScript regular-expression validator (`src/js_regex/validator.rs`, `reader.rs`, `mod.rs`,
+`unicode.rs`) and the mode logic of `no-invalid-regexp` (`src/rules/no_invalid_regexp.rs:89-108`)
+
+A state-passing transcription, one Lean `def` per Rust `fn` (camelCase of the Rust name, Rust line range in the
+doc comment).
+
+* `St` = the fields of `EcmaRegexValidator` (+ its `Reader`).  The rule creates ONE validator per file
+  (`NoInvalidRegexpVisitor::new`) and reuses it, so every function returns the state the Rust struct holds afterwards
+  — also on `Err` (the `?` early exits leave the struct as it is at that point).
+* `M α = St → Res α`; `Res` is `ok a st | err msg st | panic why st | outOfFuel st`.
+  `err` is Rust's `Err(..)` propagated by `?`; `panic` is a failing `.unwrap()` / arithmetic overflow (the harness
+  and the repository's own test profile build with `overflow-checks`; `St.overflowChecks := false` gives the wrapping
+  behaviour of a plain `--release` build); `outOfFuel` is an artefact of the model only.
+* Recursion (disjunction → alternative → term → atom → group → disjunction) and every `while`/`loop`/`for` is
+  structural recursion on an explicit fuel argument: a callee / the next iteration gets `n` when the caller holds
+  `n+1`, so fuel bounds the *depth*; `defaultFuel` is far more than any pattern needs.
+* Specialised constants: `ecma_version = Es2022` (`no_invalid_regexp.rs:63`); every `self.ecma_version >= EsXXXX`
+  test is therefore `true` and is kept as a comment at the place where it occurs.  `strict` starts `false`
+  (`validator.rs:145`) and is overwritten with `u_flag` by `validate_pattern` (`validator.rs:195`).
+* Code points (`UnicodeChar { value: u32 }`) are `Nat`; `i64` values are `Int`; Rust `String`s are lists of Unicode
+  scalar values (`List Nat`); `HashSet<String>` is a duplicate-free `List` (only membership / emptiness / difference
+  emptiness are observed, except for the *text* of one error message, see `consumePattern`).
 -/
 namespace DL.Rx
+open DL.Gen.Unicode
+
+/-! ## state -/
+
+/-- `reader.rs:8-14` -/
+structure Reader where
+  unicode : Bool := false
+  /-- `src: String` as its list of Unicode scalar values (`chars()`) -/
+  src : List Nat := []
+  index : Nat := 0
+  end_ : Nat := 0
+  /-- `cps: VecDeque<UnicodeChar>` (look-ahead, at most 4 entries) -/
+  cps : List Nat := []
+  deriving Repr, DecidableEq, Inhabited
+
+/-- `validator.rs:109-125`; `ecma_version` is the constant `Es2022` -/
+structure St where
+  reader : Reader := {}
+  strict : Bool := false
+  uFlag : Bool := false
+  nFlag : Bool := false
+  lastIntValue : Int := 0
+  lastMinValue : Int := 0
+  lastMaxValue : Int := 0
+  lastStrValue : List Nat := []
+  lastKeyValue : List Nat := []
+  lastValValue : List Nat := []
+  lastAssertionIsQuantifiable : Bool := false
+  numCapturingParens : Nat := 0
+  groupNames : List (List Nat) := []
+  backreferenceNames : List (List Nat) := []
+  /-- NOT a field of the Rust struct: the build profile (`overflow-checks`).  `true` = arithmetic overflow panics
+  (debug / test profile, the harness), `false` = two's-complement wrapping (plain release profile). -/
+  overflowChecks : Bool := true
+  deriving Repr, DecidableEq, Inhabited
+
+/-- `EcmaRegexValidator::new(EcmaVersion::Es2022)` (`validator.rs:142-160`, `reader.rs:17-25`) -/
+def St.new : St := {}
+
+inductive Res (α : Type) where
+  | ok (a : α) (s : St)
+  | err (msg : String) (s : St)
+  | panic (why : String) (s : St)
+  | outOfFuel (s : St)
+  deriving Repr
+
+def Res.state {α : Type} : Res α → St
+  | .ok _ s | .err _ s | .panic _ s | .outOfFuel s => s
+
+def M (α : Type) : Type := St → Res α
+
+@[inline] protected def M.pure {α : Type} (a : α) : M α := fun s => .ok a s
+@[inline] protected def M.bind {α β : Type} (x : M α) (f : α → M β) : M β := fun s =>
+  match x s with
+  | .ok a s' => f a s'
+  | .err m s' => .err m s'
+  | .panic m s' => .panic m s'
+  | .outOfFuel s' => .outOfFuel s'
+
+instance : Monad M where
+  pure := M.pure
+  bind := M.bind
+
+def getSt : M St := fun s => .ok s s
+def modSt (f : St → St) : M Unit := fun s => .ok () (f s)
+/-- `return Err(msg)` / `Err(msg)?` -/
+def fail {α : Type} (msg : String) : M α := fun s => .err msg s
+/-- a Rust panic (`unwrap()` on `None`, arithmetic overflow with `overflow-checks`) -/
+def rustPanic {α : Type} (why : String) : M α := fun s => .panic why s
+def outOfFuel {α : Type} : M α := fun s => .outOfFuel s
+/-- `opt.unwrap()` -/
+def unwrap {α : Type} (o : Option α) (why : String) : M α :=
+  match o with
+  | some a => pure a
+  | none => rustPanic why
+
+/-- Rust's short-circuit `a || b` on `bool`-valued calls (`?` already applied) -/
+def orM (a b : M Bool) : M Bool := do if (← a) then pure true else b
+/-- Rust's short-circuit `a && b` -/
+def andM (a b : M Bool) : M Bool := do if (← a) then b else pure false
+infixr:30 " <or> " => orM
+infixr:35 " <and> " => andM
+
+def setInt (v : Int) : M Unit := modSt fun s => { s with lastIntValue := v }
+def setStr (v : List Nat) : M Unit := modSt fun s => { s with lastStrValue := v }
+
+/-- `c as u32` for a `char` literal of the source -/
+abbrev ch (c : Char) : Nat := c.toNat
+
+def i64Max : Int := 9223372036854775807
+def i64Min : Int := -9223372036854775808
+def wrapI64 (v : Int) : Int := (v + 9223372036854775808) % 18446744073709551616 - 9223372036854775808
+
+/-- the result of an `i64` `*`/`+` expression whose mathematical value is `v` (all operands of the expressions this
+is used for are in range themselves; two's-complement wrapping is a ring homomorphism, so wrapping once at the end
+equals wrapping at every step) -/
+def checkedI64 (v : Int) (site : String) : M Int := do
+  if i64Min ≤ v ∧ v ≤ i64Max then pure v
+  else if (← getSt).overflowChecks then rustPanic s!"{site}: arithmetic overflow"
+  else pure (wrapI64 v)
+
+/-- `x as u32` for `x : i64` -/
+def i64AsU32 (v : Int) : Nat := (v % 4294967296).toNat
+
+/-! ## `UnicodeChar` (`mod.rs:11-92`) -/
+
+/-- `mod.rs:38-41` — literally `(v ^ 0xD800).wrapping_sub(0x800) < 0x110000 - 0x800` on `u32` -/
+def isScalar (v : Nat) : Bool := ((v ^^^ 0xD800) + 4294967296 - 0x800) % 4294967296 < 0x110000 - 0x800
+
+/-- `char::to_digit(radix)` for `radix ≤ 36` (the code uses 8, 10, 16) -/
+def charToDigit (c radix : Nat) : Option Nat :=
+  let d : Option Nat :=
+    if 0x30 ≤ c ∧ c ≤ 0x39 then some (c - 0x30)
+    else if 0x61 ≤ c ∧ c ≤ 0x7a then some (c - 0x61 + 10)
+    else if 0x41 ≤ c ∧ c ≤ 0x5a then some (c - 0x41 + 10)
+    else none
+  match d with
+  | some d => if d < radix then some d else none
+  | none => none
+
+/-- `mod.rs:42-48` `delegate_if_char!`: the `char` method if the value is a scalar, else `Default::default()` -/
+def toDigit (v radix : Nat) : Option Nat := if isScalar v then charToDigit v radix else none
+def isDigit (v radix : Nat) : Bool := if isScalar v then (charToDigit v radix).isSome else false
+def isAsciiDigit (v : Nat) : Bool := if isScalar v then decide (0x30 ≤ v ∧ v ≤ 0x39) else false
+def isAsciiAlphabetic (v : Nat) : Bool :=
+  if isScalar v then decide ((0x41 ≤ v ∧ v ≤ 0x5a) ∨ (0x61 ≤ v ∧ v ≤ 0x7a)) else false
+def isAsciiHexdigit (v : Nat) : Bool :=
+  if isScalar v then decide ((0x30 ≤ v ∧ v ≤ 0x39) ∨ (0x41 ≤ v ∧ v ≤ 0x46) ∨ (0x61 ≤ v ∧ v ≤ 0x66)) else false
+/-- `mod.rs:49-51` `to_char` = `char::from_u32` -/
+def toChar (v : Nat) : Option Nat := if v < 0xD800 ∨ (0xE000 ≤ v ∧ v < 0x110000) then some v else none
+
+/-! ## `Reader` (`reader.rs`) -/
+
+/-- `str::encode_utf16` -/
+def encodeUtf16 : List Nat → List Nat
+  | [] => []
+  | c :: r =>
+    if c < 0x10000 then c :: encodeUtf16 r
+    else (0xD800 + (c - 0x10000) / 0x400) :: (0xDC00 + (c - 0x10000) % 0x400) :: encodeUtf16 r
+
+/-- `reader.rs:36-38` (and `code_point_value_with_offset`, `reader.rs:40-42`: the same value as `u32`) -/
+def codePointWithOffset (offset : Nat) : M (Option Nat) := do
+  return (← getSt).reader.cps[offset]?
+
+/-- `reader.rs:124-133` -/
+def readerAt (i : Nat) : M (Option Nat) := do
+  let r := (← getSt).reader
+  if i ≥ r.end_ then pure none
+  else if r.unicode then
+    match r.src[i]? with
+    | some c => pure (some c)
+    | none => rustPanic "reader.rs:128 src.chars().nth(i).unwrap()"
+  else
+    match (encodeUtf16 r.src)[i]? with
+    | some c => pure (some c)
+    | none => rustPanic "reader.rs:131 src.encode_utf16().nth(i).unwrap()"
+
+def pushBack (c : Nat) : M Unit :=
+  modSt fun s => { s with reader := { s.reader with cps := s.reader.cps ++ [c] } }
+
+/-- the `for i in 0..4` of `rewind` (`reader.rs:60-67`); first argument = iterations left -/
+def rewindLoop (index : Nat) : Nat → Nat → M Unit
+  | 0, _ => pure ()
+  | k + 1, i => do
+    match ← readerAt (index + i) with
+    | some c => do pushBack c; rewindLoop index k (i + 1)
+    | none => pure ()
+
+/-- `reader.rs:57-68` -/
+def rewind (index : Nat) : M Unit := do
+  modSt fun s => { s with reader := { s.reader with index := index, cps := [] } }
+  rewindLoop index 4 0
+
+/-- `reader.rs:44-55` -/
+def reset (source : List Nat) (start end_ : Nat) (uFlag : Bool) : M Unit := do
+  modSt fun s => { s with reader := { s.reader with unicode := uFlag, src := source, end_ := end_ } }
+  rewind start
+
+/-- `reader.rs:70-78` -/
+def advance : M Unit := do
+  match (← getSt).reader.cps with
+  | [] => pure ()
+  | _ :: rest => do
+    modSt fun s => { s with reader := { s.reader with index := s.reader.index + 1, cps := rest } }
+    let r := (← getSt).reader
+    match ← readerAt (r.index + r.cps.length) with
+    | some c => pushBack c
+    | none => pure ()
+
+/-- `reader.rs:80-88` -/
+def eat (cp : Char) : M Bool := do
+  match (← getSt).reader.cps with
+  | c :: _ => if c == ch cp then do advance; pure true else pure false
+  | [] => pure false
+
+/-- `reader.rs:90-103` -/
+def eat2 (cp1 cp2 : Char) : M Bool := do
+  match (← getSt).reader.cps with
+  | c1 :: c2 :: _ => if c1 == ch cp1 && c2 == ch cp2 then do advance; advance; pure true else pure false
+  | _ => pure false
+
+/-- `reader.rs:105-122` -/
+def eat3 (cp1 cp2 cp3 : Char) : M Bool := do
+  match (← getSt).reader.cps with
+  | c1 :: c2 :: c3 :: _ =>
+    if c1 == ch cp1 && c2 == ch cp2 && c3 == ch cp3 then do advance; advance; advance; pure true else pure false
+  | _ => pure false
+
+def index : M Nat := do return (← getSt).reader.index
+
+/-! ## `unicode.rs` -/
+
+def strOf (l : List Char) : List Nat := l.map Char.toNat
+def setContains (set : List (List Char)) (s : List Nat) : Bool := set.any fun e => strOf e == s
+
+/-- `unicode.rs:551-570`, `version = Es2022` -/
+def isValidUnicodeProperty (name value : List Nat) : Bool :=
+  if setContains gcNamePattern name
+      && /- version >= Es2018 -/ true
+      && setContains gcValuePatterns2018 value then true
+  else if setContains scNamePattern name then
+    (/- version >= Es2018 -/ true && setContains scValuePatterns2018 value)
+      || (/- version >= Es2019 -/ true && setContains scValuePatterns2019 value)
+      || (/- version >= Es2020 -/ true && setContains scValuePatterns2020 value)
+  else false
+
+/-- `unicode.rs:572-580`, `version = Es2022` (the `es2020` set is not consulted by the source) -/
+def isValidLoneUnicodeProperty (value : List Nat) : Bool :=
+  (/- version >= Es2018 -/ true && setContains binPropertyPatterns2018 value)
+    || (/- version >= Es2019 -/ true && setContains binPropertyPatterns2019 value)
+
+/-- the `while l < r` of `is_in_range` (`unicode.rs:593-604`) -/
+def isInRangeLoop (cp : Nat) (ranges : Array Nat) : Nat → Nat → Nat → M Bool
+  | 0, _, _ => outOfFuel
+  | n + 1, l, r => do
+    if l < r then
+      let i := (l + r) / 2
+      let min ← unwrap (ranges[2 * i]?) "unicode.rs:595 ranges[2 * i]"
+      let max ← unwrap (ranges[2 * i + 1]?) "unicode.rs:596 ranges[2 * i + 1]"
+      if cp < min then isInRangeLoop cp ranges n l i
+      else if cp > max then isInRangeLoop cp ranges n (i + 1) r
+      else pure true
+    else pure false
+
+/-- `unicode.rs:590-606` (binary search; `ranges.len() + 1` iterations always suffice) -/
+def isInRange (cp : Nat) (ranges : Array Nat) : M Bool :=
+  isInRangeLoop cp ranges (ranges.size + 1) 0 (ranges.size / 2)
+
+/-- `unicode.rs:582-584` -/
+def isLargeIdStart (cp : Nat) : M Bool := isInRange cp largeIdStartRanges
+/-- `unicode.rs:586-588` -/
+def isLargeIdContinue (cp : Nat) : M Bool := isInRange cp largeIdContinueRanges
+
+/-! ## free functions of `validator.rs` -/
+
+/-- `validator.rs:9-24` -/
+def isSyntaxCharacter (cp : Nat) : Bool :=
+  cp == ch '^' || cp == ch '$' || cp == ch '\\' || cp == ch '.' || cp == ch '*' || cp == ch '+' || cp == ch '?'
+    || cp == ch '(' || cp == ch ')' || cp == ch '[' || cp == ch ']' || cp == ch '{' || cp == ch '}' || cp == ch '|'
+
+/-- `validator.rs:26-28` -/
+def isUnicodePropertyNameCharacter (cp : Nat) : Bool := isAsciiAlphabetic cp || cp == ch '_'
+/-- `validator.rs:30-32` -/
+def isUnicodePropertyValueCharacter (cp : Nat) : Bool := isUnicodePropertyNameCharacter cp || isAsciiDigit cp
+
+/-- `validator.rs:46-58` -/
+def isIdStart (cp : Nat) : M Bool :=
+  if cp < 0x41 then pure false
+  else if cp < 0x5b then pure true
+  else if cp < 0x61 then pure false
+  else if cp < 0x7b then pure true
+  else isLargeIdStart cp
+
+/-- `validator.rs:60-76` -/
+def isIdContinue (cp : Nat) : M Bool :=
+  if cp < 0x30 then pure false
+  else if cp < 0x3a then pure true
+  else if cp < 0x41 then pure false
+  else if cp < 0x5b || cp == 0x5f then pure true
+  else if cp < 0x61 then pure false
+  else if cp < 0x7b then pure true
+  else isLargeIdStart cp <or> isLargeIdContinue cp
+
+/-- `validator.rs:34-36` -/
+def isRegexpIdentifierStart (cp : Nat) : M Bool :=
+  isIdStart cp <or> pure (cp == ch '$') <or> pure (cp == ch '_')
+
+/-- `validator.rs:38-44` -/
+def isRegexpIdentifierPart (cp : Nat) : M Bool :=
+  isIdContinue cp <or> pure (cp == ch '$') <or> pure (cp == ch '_') <or> pure (cp == 0x200c) <or> pure (cp == 0x200d)
+
+/-- `validator.rs:78-80` -/
+def isValidUnicode (cp : Int) : Bool := cp ≤ 0x10ffff
+/-- `validator.rs:82-84` -/
+def isLeadSurrogate (cp : Int) : Bool := 0xd800 ≤ cp && cp ≤ 0xdbff
+/-- `validator.rs:86-88` -/
+def isTrailSurrogate (cp : Int) : Bool := 0xdc00 ≤ cp && cp ≤ 0xdfff
+/-- `validator.rs:90-92` -/
+def combineSurrogatePair (lead trail : Int) : Int := (lead - 0xd800) * 0x400 + (trail - 0xdc00) + 0x10000
+
+/-! ## `EcmaRegexValidator`: flags -/
+
+/-- the `for flag in flags.chars()` of `validate_flags` (`validator.rs:166-185`); second argument =
+`existing_flags` -/
+def validateFlagsLoop : List Nat → List Nat → Except String Unit
+  | [], _ => .ok ()
+  | flag :: rest, existing =>
+    if existing.contains flag then .error s!"Duplicated flag {flag}"
+    else
+      if flag == ch 'g' || flag == ch 'i' || flag == ch 'm'
+          || (flag == ch 'u' && /- ecma_version >= Es2015 -/ true)
+          || (flag == ch 'y' && /- ecma_version >= Es2015 -/ true)
+          || (flag == ch 's' && /- ecma_version >= Es2018 -/ true)
+          || (flag == ch 'd' && /- ecma_version >= Es2022 -/ true)
+          || (flag == ch 'v' && /- ecma_version >= Es2022 -/ true)
+      then validateFlagsLoop rest (flag :: existing)
+      else .error s!"Invalid flag {flag}"
+
+/-- `validator.rs:163-187` (`&self`: no state change) -/
+def validateFlags (flags : List Nat) : Except String Unit := validateFlagsLoop flags []
+
+/-! ## `EcmaRegexValidator`: the `eat_*` leaves -/
+
+/-- the `for _ in 0..length` of `eat_fixed_hex_digits` (`validator.rs:1550-1559`); first argument = iterations left -/
+def eatFixedHexDigitsLoop (start : Nat) : Nat → M Bool
+  | 0 => pure true
+  | k + 1 => do
+    let cp ← codePointWithOffset 0
+    match cp with
+    | none => do rewind start; pure false
+    | some c =>
+      if !isAsciiHexdigit c then do rewind start; pure false
+      else do
+        let d ← unwrap (toDigit c 16) "validator.rs:1557 to_digit(16).unwrap()"
+        let v ← checkedI64 (16 * (← getSt).lastIntValue + d) "validator.rs:1556"
+        setInt v
+        advance
+        eatFixedHexDigitsLoop start k
+
+/-- `validator.rs:1547-1561` -/
+def eatFixedHexDigits (length : Nat) : M Bool := do
+  let start ← index
+  setInt 0
+  eatFixedHexDigitsLoop start length
+
+/-- `validator.rs:1528-1538` -/
+def eatOctalDigit : M Bool := do
+  match ← codePointWithOffset 0 with
+  | some cp =>
+    if isDigit cp 8 then do
+      advance
+      let d ← unwrap (toDigit cp 8) "validator.rs:1532 to_digit(8).unwrap()"
+      setInt d
+      pure true
+    else do setInt 0; pure false
+  | none => do setInt 0; pure false
+
+/-- `validator.rs:1502-1519` -/
+def eatLegacyOctalEscapeSequence : M Bool := do
+  if ← eatOctalDigit then
+    let n1 := (← getSt).lastIntValue
+    if ← eatOctalDigit then
+      let n2 := (← getSt).lastIntValue
+      if ← (pure (decide (n1 ≤ 3)) <and> eatOctalDigit) then
+        setInt ((← getSt).lastIntValue + (n1 * 64 + n2 * 8))
+      else
+        setInt (n1 * 8 + n2)
+    else
+      setInt n1
+    pure true
+  else pure false
+
+/-- the `while let Some(cp)` of `eat_hex_digits` (`validator.rs:1475-1482`) -/
+def eatHexDigitsLoop : Nat → M Unit
+  | 0 => outOfFuel
+  | n + 1 => do
+    match ← codePointWithOffset 0 with
+    | some cp =>
+      if !isAsciiHexdigit cp then pure ()
+      else do
+        let d ← unwrap (toDigit cp 16) "validator.rs:1480 to_digit(16).unwrap()"
+        let v ← checkedI64 (16 * (← getSt).lastIntValue + d) "validator.rs:1479-1480"
+        setInt v
+        advance
+        eatHexDigitsLoop n
+    | none => pure ()
+
+/-- `validator.rs:1472-1484` -/
+def eatHexDigits (fuel : Nat) : M Bool := do
+  let start ← index
+  setInt 0
+  eatHexDigitsLoop fuel
+  return (← index) != start
+
+/-- the `while let Some(cp)` of `eat_decimal_digits` (`validator.rs:1446-1457`) -/
+def eatDecimalDigitsLoop : Nat → M Unit
+  | 0 => outOfFuel
+  | n + 1 => do
+    match ← codePointWithOffset 0 with
+    | some cp =>
+      if !isAsciiDigit cp then pure ()
+      else do
+        let cp0 ← unwrap (← codePointWithOffset 0) "validator.rs:1453 code_point_with_offset(0).unwrap()"
+        let d ← unwrap (toDigit cp0 10) "validator.rs:1455 to_digit(10).unwrap()"
+        let v ← checkedI64 (10 * (← getSt).lastIntValue + d) "validator.rs:1450-1455"
+        setInt v
+        advance
+        eatDecimalDigitsLoop n
+    | none => pure ()
+
+/-- `validator.rs:1442-1460` -/
+def eatDecimalDigits (fuel : Nat) : M Bool := do
+  let start ← index
+  setInt 0
+  eatDecimalDigitsLoop fuel
+  return (← index) != start
+
+/-- `validator.rs:1418-1430` -/
+def eatHexEscapeSequence : M Bool := do
+  let start ← index
+  if ← eat 'x' then
+    if ← eatFixedHexDigits 2 then pure true
+    else
+      let s ← getSt
+      if s.uFlag || s.strict then fail "Invalid escape"
+      else do rewind start; pure false
+  else pure false
+
+/-- the `while let Some(cp)` of `eat_unicode_property_name` / `_value` (`validator.rs:1369-1375`, `1388-1394`) -/
+def eatPropertyCharsLoop (p : Nat → Bool) (site : String) : Nat → M Unit
+  | 0 => outOfFuel
+  | n + 1 => do
+    match ← codePointWithOffset 0 with
+    | some cp =>
+      if !p cp then pure ()
+      else do
+        let c ← unwrap (toChar cp) site
+        modSt fun s => { s with lastStrValue := s.lastStrValue ++ [c] }
+        advance
+        eatPropertyCharsLoop p site n
+    | none => pure ()
+
+/-- `validator.rs:1367-1377` -/
+def eatUnicodePropertyName (fuel : Nat) : M Bool := do
+  setStr []
+  eatPropertyCharsLoop isUnicodePropertyNameCharacter "validator.rs:1373 to_char().unwrap()" fuel
+  return !(← getSt).lastStrValue.isEmpty
+
+/-- `validator.rs:1386-1396` -/
+def eatUnicodePropertyValue (fuel : Nat) : M Bool := do
+  setStr []
+  eatPropertyCharsLoop isUnicodePropertyValueCharacter "validator.rs:1392 to_char().unwrap()" fuel
+  return !(← getSt).lastStrValue.isEmpty
+
+/-- `validator.rs:1405-1407` -/
+def eatLoneUnicodePropertyNameOrValue (fuel : Nat) : M Bool := eatUnicodePropertyValue fuel
+
+/-- `"General_Category"` -/
+def generalCategory : List Nat := strOf (chars! "General_Category")
+
+/-- `validator.rs:1318-1358` -/
+def eatUnicodePropertyValueExpression (fuel : Nat) : M Bool := do
+  let start ← index
+  -- UnicodePropertyName `=` UnicodePropertyValue
+  let cont ← (do
+    if ← (eatUnicodePropertyName fuel <and> eat '=') then
+      modSt fun s => { s with lastKeyValue := s.lastStrValue }
+      if ← eatUnicodePropertyValue fuel then
+        modSt fun s => { s with lastValValue := s.lastStrValue }
+        let s ← getSt
+        if isValidUnicodeProperty s.lastKeyValue s.lastValValue then pure (some true)
+        else fail "Invalid property name"
+      else pure none
+    else pure none : M (Option Bool))
+  match cont with
+  | some b => pure b
+  | none => do
+    rewind start
+    -- LoneUnicodePropertyNameOrValue
+    if ← eatLoneUnicodePropertyNameOrValue fuel then
+      let nameOrValue := (← getSt).lastStrValue
+      if isValidUnicodeProperty generalCategory nameOrValue then
+        modSt fun s => { s with lastKeyValue := generalCategory, lastValValue := nameOrValue }
+        pure true
+      else if isValidLoneUnicodeProperty nameOrValue then
+        modSt fun s => { s with lastKeyValue := nameOrValue, lastValValue := [] }
+        pure true
+      else fail "Invalid property name"
+    else pure false
+
+/-- the inner `while let Some(cp)` of `eat_decimal_escape` (`validator.rs:1295-1302`) -/
+def eatDecimalEscapeLoop : Nat → M Unit
+  | 0 => outOfFuel
+  | n + 1 => do
+    match ← codePointWithOffset 0 with
+    | some cp =>
+      if !isAsciiDigit cp then pure ()
+      else do
+        let d ← unwrap (toDigit cp 10) "validator.rs:1300 to_digit(10).unwrap()"
+        let v ← checkedI64 (10 * (← getSt).lastIntValue + d) "validator.rs:1299-1300"
+        setInt v
+        advance
+        eatDecimalEscapeLoop n
+    | none => pure ()
+
+/-- `validator.rs:1288-1307` -/
+def eatDecimalEscape (fuel : Nat) : M Bool := do
+  setInt 0
+  match ← codePointWithOffset 0 with
+  | some cp =>
+    if isAsciiDigit cp then do
+      let d ← unwrap (toDigit cp 10) "validator.rs:1293 to_digit(10).unwrap()"
+      let v ← checkedI64 (10 * (← getSt).lastIntValue + d) "validator.rs:1292-1293"
+      setInt v
+      advance
+      eatDecimalEscapeLoop fuel
+      pure true
+    else pure false
+  | none => pure false
+
+/-- `validator.rs:1269-1279` -/
+def isValidIdentityEscape (cp : Nat) : M Bool := do
+  let s ← getSt
+  if s.uFlag then pure (isSyntaxCharacter cp || cp == ch '/')
+  else if s.strict then do pure (!(← isIdContinue cp))
+  else if s.nFlag then pure (!(cp == ch 'c' || cp == ch 'k'))
+  else pure (cp != ch 'c')
+
+/-- `validator.rs:1259-1268` -/
+def eatIdentityEscape : M Bool := do
+  match ← codePointWithOffset 0 with
+  | some cp =>
+    if ← isValidIdentityEscape cp then do
+      setInt cp
+      advance
+      pure true
+    else pure false
+  | none => pure false
+
+/-- `validator.rs:1231-1244` -/
+def eatRegexpUnicodeCodepointEscape (fuel : Nat) : M Bool := do
+  let start ← index
+  if ← (eat '{' <and> eatHexDigits fuel <and> eat '}' <and> (do pure (isValidUnicode (← getSt).lastIntValue))) then
+    pure true
+  else do
+    rewind start
+    pure false
+
+/-- `validator.rs:1202-1223` -/
+def eatRegexpUnicodeSurrogatePairEscape : M Bool := do
+  let start ← index
+  if ← eatFixedHexDigits 4 then
+    let lead := (← getSt).lastIntValue
+    let hit ← (do
+      if ← (pure (isLeadSurrogate lead) <and> eat '\\' <and> eat 'u' <and> eatFixedHexDigits 4) then
+        let trail := (← getSt).lastIntValue
+        if isTrailSurrogate trail then do
+          setInt (combineSurrogatePair lead trail)
+          pure true
+        else pure false
+      else pure false : M Bool)
+    if hit then pure true
+    else do
+      rewind start
+      pure false
+  else pure false
+
+/-- `validator.rs:1173-1194` -/
+def eatRegexpUnicodeEscapeSequence (fuel : Nat) (forceUFlag : Bool) : M Bool := do
+  let start ← index
+  let uFlag := forceUFlag || (← getSt).uFlag
+  if ← eat 'u' then
+    if ← ((pure uFlag <and> eatRegexpUnicodeSurrogatePairEscape)
+          <or> eatFixedHexDigits 4
+          <or> (pure uFlag <and> eatRegexpUnicodeCodepointEscape fuel)) then
+      pure true
+    else if (← getSt).strict || uFlag then fail "Invalid unicode escape"
+    else do
+      rewind start
+      pure false
+  else pure false
+
+/-- `validator.rs:1149-1158` -/
+def eatControlLetter : M Bool := do
+  match ← codePointWithOffset 0 with
+  | some cp =>
+    if isAsciiAlphabetic cp then do
+      advance
+      setInt ((cp : Int) % 0x20)
+      pure true
+    else pure false
+  | none => pure false
+
+/-- `validator.rs:1117-1139` -/
+def eatControlEscape : M Bool := do
+  if ← eat 'f' then do setInt 0x0c; pure true
+  else if ← eat 'n' then do setInt 0x0a; pure true
+  else if ← eat 'r' then do setInt 0x0d; pure true
+  else if ← eat 't' then do setInt 0x09; pure true
+  else if ← eat 'v' then do setInt 0x0b; pure true
+  else pure false
+
+/-- `validator.rs:1096-1107` -/
+def eatZero : M Bool := do
+  if (← codePointWithOffset 0) != some (ch '0') then pure false
+  else
+    let blocked := match ← codePointWithOffset 1 with
+      | some cp => isAsciiDigit cp
+      | none => false
+    if blocked then pure false
+    else do
+      setInt 0
+      advance
+      pure true
+
+/-- `validator.rs:1079-1088` -/
+def eatCControlLetter : M Bool := do
+  let start ← index
+  if ← eat 'c' then
+    if ← eatControlLetter then pure true
+    else do
+      rewind start
+      pure false
+  else pure false
+
+/-- `validator.rs:1037-1071` -/
+def eatRegexpIdentifierPart (fuel : Nat) : M Bool := do
+  let start ← index
+  let forceUFlag := !(← getSt).uFlag && /- ecma_version >= Es2020 -/ true
+  let cp0 ← codePointWithOffset 0
+  advance
+  let cp1 ← codePointWithOffset 0
+  let cp : Option Nat ← (do
+    if ← (pure (cp0 == some (ch '\\')) <and> eatRegexpUnicodeEscapeSequence fuel forceUFlag) then
+      -- TODO (source): convert unicode code point to char
+      pure (some (i64AsU32 (← getSt).lastIntValue))
+    else if forceUFlag then
+      -- `force_u_flag && is_lead_surrogate(cp.unwrap()..) && is_trail_surrogate(cp1.unwrap()..)`
+      let c ← unwrap cp0 "validator.rs:1050 cp.unwrap()"
+      if isLeadSurrogate c then
+        let c1 ← unwrap cp1 "validator.rs:1051 cp1.unwrap()"
+        if isTrailSurrogate c1 then do
+          advance
+          pure (some (i64AsU32 (combineSurrogatePair c c1)))
+        else pure cp0
+      else pure cp0
+    else pure cp0 : M (Option Nat))
+  let hit ← (match cp with
+    | some c => do
+      if ← isRegexpIdentifierPart c then do
+        setInt c
+        pure true
+      else pure false
+    | none => pure false : M Bool)
+  if hit then pure true
+  else do
+    if (← index) != start then rewind start
+    pure false
+
+/-- `validator.rs:990-1021` -/
+def eatRegexpIdentifierStart (fuel : Nat) : M Bool := do
+  let start ← index
+  let forceUFlag := !(← getSt).uFlag && /- ecma_version >= Es2020 -/ true
+  let hit ← (do
+    match ← codePointWithOffset 0 with
+    | some cp0 => do
+      advance
+      let cp1 ← codePointWithOffset 0
+      let cp : Nat ← (do
+        if ← (pure (cp0 == ch '\\') <and> eatRegexpUnicodeEscapeSequence fuel forceUFlag) then
+          pure (i64AsU32 (← getSt).lastIntValue)
+        else if forceUFlag && isLeadSurrogate cp0 then
+          match cp1 with
+          | some c1 =>
+            if isTrailSurrogate c1 then do
+              advance
+              pure (i64AsU32 (combineSurrogatePair cp0 c1))
+            else pure cp0
+          | none => pure cp0
+        else pure cp0 : M Nat)
+      if ← isRegexpIdentifierStart cp then do
+        setInt cp
+        pure true
+      else pure false
+    | none => pure false : M Bool)
+  if hit then pure true
+  else do
+    if (← index) != start then rewind start
+    pure false
+
+/-- the `while self.eat_regexp_identifier_part()?` of `eat_regexp_identifier_name` (`validator.rs:967-971`) -/
+def eatRegexpIdentifierNameLoop : Nat → M Unit
+  | 0 => outOfFuel
+  | n + 1 => do
+    if ← eatRegexpIdentifierPart n then
+      let c ← unwrap (toChar (i64AsU32 (← getSt).lastIntValue)) "validator.rs:970 char::from_u32(..).unwrap()"
+      modSt fun s => { s with lastStrValue := s.lastStrValue ++ [c] }
+      eatRegexpIdentifierNameLoop n
+    else pure ()
+
+/-- `validator.rs:962-976` -/
+def eatRegexpIdentifierName (fuel : Nat) : M Bool := do
+  if ← eatRegexpIdentifierStart fuel then
+    let c ← unwrap (toChar (i64AsU32 (← getSt).lastIntValue)) "validator.rs:964-965 char::from_u32(..).unwrap()"
+    setStr [c]
+    eatRegexpIdentifierNameLoop fuel
+    pure true
+  else pure false
+
+/-- `validator.rs:941-951` -/
+def eatGroupName (fuel : Nat) : M Bool := do
+  if ← eat '<' then
+    if ← (eatRegexpIdentifierName fuel <and> eat '>') then pure true
+    else fail "Invalid capture group name"
+  else pure false
+
+/-! ## `EcmaRegexValidator`: escapes, classes -/
+
+/-- `validator.rs:768-778` -/
+def consumeKGroupName (fuel : Nat) : M Bool := do
+  if ← eat 'k' then
+    if ← eatGroupName fuel then
+      let groupName := (← getSt).lastStrValue
+      modSt fun s => { s with backreferenceNames :=
+        if s.backreferenceNames.contains groupName then s.backreferenceNames else s.backreferenceNames ++ [groupName] }
+      pure true
+    else fail "Invalid named reference"
+  else pure false
+
+/-- `validator.rs:749-761` -/
+def consumeCharacterEscape (fuel : Nat) : M Bool :=
+  eatControlEscape
+    <or> eatCControlLetter
+    <or> eatZero
+    <or> eatHexEscapeSequence
+    <or> eatRegexpUnicodeEscapeSequence fuel false
+    <or> ((do pure (!(← getSt).strict)) <and> (do pure (!(← getSt).uFlag)) <and> eatLegacyOctalEscapeSequence)
+    <or> eatIdentityEscape
+
+/-- `validator.rs:709-735` -/
+def consumeCharacterClassEscape (fuel : Nat) : M Bool := do
+  if ← (eat 'd' <or> eat 'D' <or> eat 's' <or> eat 'S' <or> eat 'w' <or> eat 'W') then
+    setInt (-1)
+    pure true
+  else if ← ((do pure (← getSt).uFlag) <and> /- ecma_version >= Es2018 -/ pure true <and> (eat 'p' <or> eat 'P')) then
+    setInt (-1)
+    if ← (eat '{' <and> eatUnicodePropertyValueExpression fuel <and> eat '}') then pure true
+    else fail "Invalid property name"
+  else pure false
+
+/-- `validator.rs:681-692` -/
+def consumeBackreference (fuel : Nat) : M Bool := do
+  let start ← index
+  if ← eatDecimalEscape fuel then
+    let s ← getSt
+    if s.lastIntValue ≤ (s.numCapturingParens : Int) then pure true
+    else if s.strict || s.uFlag then fail "Invalid escape"
+    else do
+      rewind start
+      pure false
+  else pure false
+
+/-- `validator.rs:660-672` -/
+def consumeAtomEscape (fuel : Nat) : M Bool := do
+  if ← (consumeBackreference fuel
+        <or> consumeCharacterClassEscape fuel
+        <or> consumeCharacterEscape fuel
+        <or> ((do pure (← getSt).nFlag) <and> consumeKGroupName fuel)) then
+    pure true
+  else
+    let s ← getSt
+    if s.strict || s.uFlag then fail "Invalid escape"
+    else pure false
+
+/-- `validator.rs:901-932` -/
+def consumeClassEscape (fuel : Nat) : M Bool := do
+  if ← eat 'b' then
+    setInt 0x08 -- backspace
+    pure true
+  -- [+U] `-`
+  else if ← ((do pure (← getSt).uFlag) <and> eat '-') then
+    setInt (ch '-')
+    pure true
+  else
+    -- [annexB][~U] `c` ClassControlLetter
+    let s ← getSt
+    let hit ← (do
+      if !s.strict && !s.uFlag && (← codePointWithOffset 0) == some (ch 'c') then
+        match ← codePointWithOffset 1 with
+        | some cp =>
+          if isAsciiDigit cp || cp == ch '_' then do
+            advance
+            advance
+            setInt ((cp : Int) % 0x20)
+            pure true
+          else pure false
+        | none => pure false
+      else pure false : M Bool)
+    if hit then pure true
+    else consumeCharacterClassEscape fuel <or> consumeCharacterEscape fuel
+
+/-- `validator.rs:858-885` -/
+def consumeClassAtom (fuel : Nat) : M Bool := do
+  let start ← index
+  let hit ← (do
+    match ← codePointWithOffset 0 with
+    | some cp =>
+      if cp != ch '\\' && cp != ch ']' then do
+        advance
+        setInt cp
+        pure true
+      else pure false
+    | none => pure false : M Bool)
+  if hit then pure true
+  else if ← eat '\\' then
+    if ← consumeClassEscape fuel then pure true
+    else if !(← getSt).strict && (← codePointWithOffset 0) == some (ch 'c') then
+      setInt (ch '\\')
+      pure true
+    else
+      let s ← getSt
+      if s.strict || s.uFlag then fail "Invalid escape"
+      else do
+        rewind start
+        pure false
+  else pure false
+
+/-- `validator.rs:812-844`; one call = one iteration of the `loop`, `continue` = the recursive call -/
+def consumeClassRanges : Nat → M Unit
+  | 0 => outOfFuel
+  | n + 1 => do
+    -- Consume the first ClassAtom
+    if !(← consumeClassAtom n) then pure () -- break
+    else
+      let min := (← getSt).lastIntValue
+      -- Consume `-`
+      if !(← eat '-') then consumeClassRanges n -- continue
+      else
+        -- Consume the second ClassAtom
+        if !(← consumeClassAtom n) then pure () -- break
+        else
+          let max := (← getSt).lastIntValue
+          -- Validate
+          if min == -1 || max == -1 then
+            if (← getSt).strict then fail "Invalid character class"
+            else consumeClassRanges n -- continue
+          else if min > max then fail "Range out of order in character class"
+          else consumeClassRanges n
+
+/-- `validator.rs:787-796` -/
+def consumeCharacterClass (fuel : Nat) : M Bool := do
+  if !(← eat '[') then pure false
+  else do
+    consumeClassRanges fuel
+    if !(← eat ']') then fail "Unterminated character class"
+    else pure true
+
+/-! ## `EcmaRegexValidator`: quantifiers, atoms -/
+
+/-- `validator.rs:409-437` -/
+def eatBracedQuantifier (fuel : Nat) (noError : Bool) : M Bool := do
+  let start ← index
+  if ← eat '{' then
+    modSt fun s => { s with lastMinValue := 0, lastMaxValue := i64Max }
+    let done ← (do
+      if ← eatDecimalDigits fuel then
+        modSt fun s => { s with lastMinValue := s.lastIntValue, lastMaxValue := s.lastIntValue }
+        if ← eat ',' then
+          if ← eatDecimalDigits fuel then modSt fun s => { s with lastMaxValue := s.lastIntValue }
+          else modSt fun s => { s with lastMaxValue := i64Max }
+        if ← eat '}' then
+          let s ← getSt
+          if !noError && s.lastMaxValue < s.lastMinValue then fail "numbers out of order in {} quantifier"
+          else pure true
+        else pure false
+      else pure false : M Bool)
+    if done then pure true
+    else
+      let s ← getSt
+      if !noError && (s.uFlag || s.strict) then fail "Incomplete quantifier"
+      else do
+        rewind start
+        pure false
+  else pure false
+
+/-- `validator.rs:386-398` -/
+def consumeQuantifier (fuel : Nat) (noConsume : Bool) : M Bool := do
+  -- QuantifierPrefix
+  if ← (eat '*' <or> eat '+' <or> eat '?' <or> eatBracedQuantifier fuel noConsume) then
+    let _ ← eat '?'
+    pure true
+  else pure false
+
+/-- `validator.rs:313-316` -/
+def consumeOptionalQuantifier (fuel : Nat) : M Bool := do
+  let _ ← consumeQuantifier fuel false
+  pure true
+
+/-- `validator.rs:466-475` -/
+def consumeReverseSolidusAtomEscape (fuel : Nat) : M Bool := do
+  let start ← index
+  if ← eat '\\' then
+    if ← consumeAtomEscape fuel then pure true
+    else do
+      rewind start
+      pure false
+  else pure false
+
+/-- `validator.rs:549-559` -/
+def consumeReverseSolidusFollowedByC : M Bool := do
+  if (← codePointWithOffset 0) == some (ch '\\') && (← codePointWithOffset 1) == some (ch 'c') then
+    setInt (ch '\\')
+    advance
+    pure true
+  else pure false
+
+/-- `validator.rs:570-576` -/
+def consumeInvalidBracedQuantifier (fuel : Nat) : M Bool := do
+  if ← eatBracedQuantifier fuel true then fail "Nothing to repeat"
+  else pure false
+
+/-- `validator.rs:585-593` -/
+def consumePatternCharacter : M Bool := do
+  match ← codePointWithOffset 0 with
+  | some cp =>
+    if !isSyntaxCharacter cp then do
+      advance
+      pure true
+    else pure false
+  | none => pure false
+
+/-- `validator.rs:602-621` -/
+def consumeExtendedPatternCharacter : M Bool := do
+  match ← codePointWithOffset 0 with
+  | some cp =>
+    if cp != ch '^' && cp != ch '$' && cp != ch '\\' && cp != ch '.' && cp != ch '*' && cp != ch '+'
+        && cp != ch '?' && cp != ch '(' && cp != ch ')' && cp != ch '[' && cp != ch '|' then do
+      advance
+      pure true
+    else pure false
+  | none => pure false
+
+/-- `validator.rs:631-646` -/
+def consumeGroupSpecifier (fuel : Nat) : M Bool := do
+  if ← eat '?' then
+    if ← eatGroupName fuel then
+      let s ← getSt
+      if !s.groupNames.contains s.lastStrValue then
+        modSt fun s => { s with groupNames := s.groupNames ++ [s.lastStrValue] }
+        pure true
+      else fail "Duplicate capture group name"
+    else fail "Invalid group"
+  else pure false
+
+/-! ## the recursive productions -/
+
+mutual
+
+/-- `validator.rs:253-266` -/
+def consumeDisjunction : Nat → M Unit
+  | 0 => outOfFuel
+  | n + 1 => do
+    consumeAlternative n
+    consumeDisjunctionLoop n
+    if ← consumeQuantifier n true then fail "Nothing to repeat"
+    else if ← eat '{' then fail "Lone quantifier brackets"
+    else pure ()
+
+/-- the `while self.eat('|')` of `consume_disjunction` (`validator.rs:255-257`) -/
+def consumeDisjunctionLoop : Nat → M Unit
+  | 0 => outOfFuel
+  | n + 1 => do
+    if ← eat '|' then
+      consumeAlternative n
+      consumeDisjunctionLoop n
+    else pure ()
+
+/-- `validator.rs:274-279`; the `while` is the recursive call -/
+def consumeAlternative : Nat → M Unit
+  | 0 => outOfFuel
+  | n + 1 => do
+    if ← ((do pure (← codePointWithOffset 0).isSome) <and> consumeTerm n) then consumeAlternative n
+    else pure ()
+
+/-- `validator.rs:296-311` -/
+def consumeTerm : Nat → M Bool
+  | 0 => outOfFuel
+  | n + 1 => do
+    let s ← getSt
+    if s.uFlag || s.strict then
+      consumeAssertion n <or> (consumeAtom n <and> consumeOptionalQuantifier n)
+    else
+      (consumeAssertion n
+          <and> ((do pure (!(← getSt).lastAssertionIsQuantifiable)) <or> consumeOptionalQuantifier n))
+        <or> (consumeExtendedAtom n <and> consumeOptionalQuantifier n)
+
+/-- `validator.rs:339-370` -/
+def consumeAssertion : Nat → M Bool
+  | 0 => outOfFuel
+  | n + 1 => do
+    let start ← index
+    modSt fun s => { s with lastAssertionIsQuantifiable := false }
+    if ← (eat '^' <or> eat '$' <or> eat2 '\\' 'B' <or> eat2 '\\' 'b') then pure true
+    -- Lookahead / Lookbehind
+    else if ← eat2 '(' '?' then
+      let lookbehind ← (/- ecma_version >= Es2018 -/ pure true <and> eat '<')
+      let flag ← (eat '=' <or> eat '!')
+      if flag then
+        consumeDisjunction n
+        if !(← eat ')') then fail "Unterminated group"
+        else do
+          modSt fun s => { s with lastAssertionIsQuantifiable := !lookbehind && !s.strict }
+          pure true
+      else do
+        rewind start
+        pure false
+    else pure false
+
+/-- `validator.rs:450-459` -/
+def consumeAtom : Nat → M Bool
+  | 0 => outOfFuel
+  | n + 1 =>
+    consumePatternCharacter
+      <or> eat '.'
+      <or> consumeReverseSolidusAtomEscape n
+      <or> consumeCharacterClass n
+      <or> consumeUncapturingGroup n
+      <or> consumeCapturingGroup n
+
+/-- `validator.rs:531-542` -/
+def consumeExtendedAtom : Nat → M Bool
+  | 0 => outOfFuel
+  | n + 1 =>
+    eat '.'
+      <or> consumeReverseSolidusAtomEscape n
+      <or> consumeReverseSolidusFollowedByC
+      <or> consumeCharacterClass n
+      <or> consumeUncapturingGroup n
+      <or> consumeCapturingGroup n
+      <or> consumeInvalidBracedQuantifier n
+      <or> consumeExtendedPatternCharacter
+
+/-- `validator.rs:482-493` -/
+def consumeUncapturingGroup : Nat → M Bool
+  | 0 => outOfFuel
+  | n + 1 => do
+    if ← eat3 '(' '?' ':' then
+      consumeDisjunction n
+      if !(← eat ')') then fail "Unterminated group"
+      else pure true
+    else pure false
+
+/-- `validator.rs:500-516` -/
+def consumeCapturingGroup : Nat → M Bool
+  | 0 => outOfFuel
+  | n + 1 => do
+    if !(← eat '(') then pure false
+    else do
+      -- `if self.ecma_version >= Es2018 { self.consume_group_specifier()?; }`
+      -- (`else if self.code_point_value_with_offset(0) == Some('?') { return Err("Invalid group") }` is dead for Es2022)
+      let _ ← consumeGroupSpecifier n
+      consumeDisjunction n
+      if !(← eat ')') then fail "Unterminated group"
+      else pure true
+
+end
+
+/-! ## patterns -/
+
+/-- the `while let Some(cp)` of `count_capturing_parens` (`validator.rs:1569-1591`) -/
+def countCapturingParensLoop : Nat → Bool → Bool → Nat → M Nat
+  | 0, _, _, _ => outOfFuel
+  | n + 1, inClass, escaped, count => do
+    match ← codePointWithOffset 0 with
+    | none => pure count
+    | some cp =>
+      if escaped then do
+        advance
+        countCapturingParensLoop n inClass false count
+      else if cp == ch '\\' then do
+        advance
+        countCapturingParensLoop n inClass true count
+      else if cp == ch '[' then do
+        advance
+        countCapturingParensLoop n true escaped count
+      else if cp == ch ']' then do
+        advance
+        countCapturingParensLoop n false escaped count
+      else
+        let c1 ← codePointWithOffset 1
+        let c2 ← codePointWithOffset 2
+        let c3 ← codePointWithOffset 3
+        if cp == ch '(' && !inClass
+            && (c1 != some (ch '?') || (c2 == some (ch '<') && c3 != some (ch '=') && c3 != some (ch '!'))) then do
+          advance
+          countCapturingParensLoop n inClass escaped (count + 1)
+        else do
+          advance
+          countCapturingParensLoop n inClass escaped count
+
+/-- `validator.rs:1563-1595` -/
+def countCapturingParens (fuel : Nat) : M Nat := do
+  let start ← index
+  let count ← countCapturingParensLoop fuel false false 0
+  rewind start
+  pure count
+
+/-- `validator.rs:219-245` -/
+def consumePattern (fuel : Nat) : M Unit := do
+  let count ← countCapturingParens fuel
+  modSt fun s => { s with numCapturingParens := count, groupNames := [], backreferenceNames := [] }
+  consumeDisjunction fuel
+  match ← codePointWithOffset 0 with
+  | some cp =>
+    if cp == ch ')' then fail "Unmatched ')'"
+    else if cp == ch '\\' then fail "\\ at end of pattern"
+    else if cp == ch ']' || cp == ch '}' then fail "Lone quantifier brackets"
+    else fail s!"Unexpected character {cp}"
+  | none =>
+    let s ← getSt
+    -- `backreference_names.difference(&group_names).next()`: which element a `HashSet` yields first is unspecified;
+    -- only the *text* of the message depends on it (the model names the first in insertion order)
+    match s.backreferenceNames.find? (fun name => !s.groupNames.contains name) with
+    | some name => fail s!"Invalid named capture referenced: {String.ofList (name.map Char.ofNat)}"
+    | none => pure ()
+
+/-- `validator.rs:190-212` -/
+def validatePattern (fuel : Nat) (source : List Nat) (uFlag : Bool) : M Unit := do
+  modSt fun s => { s with
+    strict := uFlag, -- TODO (source): allow toggling strict independently of u flag
+    uFlag := uFlag && /- ecma_version >= Es2015 -/ true,
+    nFlag := uFlag && /- ecma_version >= Es2018 -/ true }
+  -- `self.reset(source, 0, source.chars().count(), u_flag)`: `end` is the number of *scalar values* also when the
+  -- reader then indexes UTF-16 code units (`u_flag = false`)
+  reset source 0 source.length uFlag
+  consumePattern fuel
+  let s ← getSt
+  if !s.nFlag && /- ecma_version >= Es2018 -/ true && !s.groupNames.isEmpty then
+    modSt fun s => { s with nFlag := true }
+    rewind 0
+    consumePattern fuel
+
+/-! ## the rule (`src/rules/no_invalid_regexp.rs`) -/
+
+/-- `no_invalid_regexp.rs:102-104` -/
+def checkForInvalidFlags (flags : List Nat) : Bool :=
+  match validateFlags flags with
+  | .ok _ => false
+  | .error _ => true
+
+/-- `no_invalid_regexp.rs:106-108`: `.is_err()` -/
+def checkForInvalidPattern (fuel : Nat) (source : List Nat) (uFlag : Bool) : M Bool := fun s =>
+  match validatePattern fuel source uFlag s with
+  | .ok _ s' => .ok false s'
+  | .err _ s' => .ok true s'
+  | .panic m s' => .panic m s'
+  | .outOfFuel s' => .outOfFuel s'
+
+/-- `no_invalid_regexp.rs:89-100`: `true` = a diagnostic is added -/
+def checkRegex (fuel : Nat) (pattern flags : List Nat) : M Bool :=
+  pure (checkForInvalidFlags flags)
+    <or> (pure (!flags.isEmpty) <and> checkForInvalidPattern fuel pattern (flags.contains (ch 'u')))
+    <or> (checkForInvalidPattern fuel pattern true <and> checkForInvalidPattern fuel pattern false)
+
+/-- generous: the recursion depth needed is below `10 * (number of code units) + 20` -/
+def defaultFuel (pattern : List Nat) : Nat := 50 * ((encodeUtf16 pattern).length + 10)
+
+structure SeqResult where
+  reported : List Bool
+  panic : Bool
+  fuel : Bool
+  /-- the panic site, for the log -/
+  why : Option String
+  final : St
+  deriving Repr
+
+/-- all regexes of one file in source order with one validator; after a panic (the lint of the file is dead) or
+fuel exhaustion the remaining entries are `false` -/
+def runSeq : List (List Nat × List Nat) → St → SeqResult
+  | [], s => { reported := [], panic := false, fuel := false, why := none, final := s }
+  | (p, f) :: rest, s =>
+    match checkRegex (defaultFuel p) p f s with
+    | .ok b s' =>
+      let r := runSeq rest s'
+      { r with reported := b :: r.reported }
+    | .err m s' => -- unreachable: `checkRegex` turns every `Err` into a Boolean
+      { reported := false :: rest.map (fun _ => false), panic := true, fuel := false, why := some s!"err escaped: {m}", final := s' }
+    | .panic m s' =>
+      { reported := false :: rest.map (fun _ => false), panic := true, fuel := false, why := some m, final := s' }
+    | .outOfFuel s' =>
+      { reported := false :: rest.map (fun _ => false), panic := false, fuel := true, why := none, final := s' }
+
+/-- `&str` → its scalar values -/
+def ofString (s : String) : List Nat := s.toList.map Char.toNat
 
 end DL.Rx
